@@ -5,6 +5,7 @@ package main
 import (
 	"bytes"
 	"encoding/hex"
+	"errors"
 	"fmt"
 	"strconv"
 	"strings"
@@ -20,7 +21,7 @@ func (p *prop) Rule() string {
 	return "logged histories of 4-30 lines on one bitmap (slice or B-tree) with a bytes.Buffer as OpWriter: Add/Remove (one op per value), " +
 		"AddN/RemoveN (batches with duplicates and values already present/absent, so a[:changed] differs from a), ImportRoaringBits set/clear " +
 		"(Pilosa-format payloads from the real writer and official-format payloads from the C04 reference encoder, with and without run containers, including ones that change nothing; the caller's buffer must stay untouched), re-encoding (snap) in between, decoding snapshot++log into a fresh " +
-		"bitmap of either collection (check) and continuing on the decoded bitmap (reopen); values from <=3 container keys x 10 low values. " +
+		"bitmap of either collection (check) and continuing on the decoded bitmap (reopen); in one case out of six the OpWriter fails on a chosen Write (cleanly, or after taking some bytes) of an Add/Remove value, an AddN/RemoveN batch mixing new, duplicate and already-set values, or an import; values from <=3 container keys x 10 low values. " +
 		"Non-trivial: at least one batch or import line and a later check/reopen"
 }
 
@@ -153,7 +154,39 @@ func (p *prop) Gen(r *vh.Rng, tier string, n int) []vh.Case {
 		if tier == "thorough" && cr.Chance(1, 10) {
 			nl = cr.Range(30, 90)
 		}
+		// one case in six arms a writer failure before one of its mutations: clean failures (k = 0)
+		// anywhere, then the history goes on; short writes and failing imports (the two known
+		// deviations) end the case with checks.
+		failPos := -1
+		if cr.Chance(1, 6) {
+			failPos = cr.Intn(nl)
+		}
 		for i := 0; i < nl; i++ {
+			if i == failPos {
+				k := 0
+				if cr.Chance(1, 4) {
+					k = cr.Pick(1, 5, 12, 13, 20, 40)
+				}
+				var mut string
+				for {
+					mut = g.line()
+					op := strings.Fields(mut)[0]
+					if op == "add" || op == "remove" || op == "addn" && len(strings.Fields(mut)) > 1 || op == "removen" || op == "import" {
+						break
+					}
+				}
+				at := 0
+				if op := strings.Fields(mut)[0]; op == "add" || op == "remove" {
+					at = cr.Intn(len(strings.Fields(mut)) - 1)
+				}
+				lines = append(lines, fmt.Sprintf("failat %d %d", at, k), mut, "check "+cr.PickS("slice", "btree"))
+				vh.Count("scenario:write-failure")
+				if k > 0 || strings.HasPrefix(mut, "import") {
+					lines = append(lines, "check "+cr.PickS("slice", "btree"))
+					break
+				}
+				continue
+			}
 			lines = append(lines, g.line())
 		}
 		lines = append(lines, "check "+cr.PickS("slice", "btree"))
@@ -175,9 +208,39 @@ func (p *prop) Gen(r *vh.Rng, tier string, n int) []vh.Case {
 
 // ---------- execution ----------
 
+// flaky is the OpWriter: a buffer whose at-th next Write (0 = the next one) takes only k bytes and
+// returns an error; all other writes succeed.
+type flaky struct {
+	buf   bytes.Buffer
+	armed bool
+	at, k int
+}
+
+var errFlaky = errors.New("verif: injected write failure")
+
+func (w *flaky) Write(p []byte) (int, error) {
+	if w.armed {
+		if w.at == 0 {
+			w.armed = false
+			k := w.k
+			if k > len(p) {
+				k = len(p)
+			}
+			w.buf.Write(p[:k])
+			return k, errFlaky
+		}
+		w.at--
+	}
+	return w.buf.Write(p)
+}
+
+func (w *flaky) Len() int      { return w.buf.Len() }
+func (w *flaky) Bytes() []byte { return w.buf.Bytes() }
+func (w *flaky) Reset()        { w.buf.Reset() }
+
 type state struct {
 	b    *roaring.Bitmap
-	log  *bytes.Buffer
+	log  *flaky
 	snap []byte
 	keep [][]byte
 }
@@ -235,7 +298,7 @@ func stateStr(b *roaring.Bitmap) string {
 func (s *state) tail(before int) string {
 	ops, opN := s.b.Ops()
 	vh.Count(fmt.Sprintf("logged-bytes:%d", (s.log.Len()-before+15)/16*16))
-	return fmt.Sprintf("log=%s ops=%d opN=%d", hexOrDash(s.log.Bytes()[before:]), ops, opN)
+	return fmt.Sprintf("log=%s ops=%d opN=%d live=%s", hexOrDash(s.log.Bytes()[before:]), ops, opN, vh.U64s(s.b.Slice()))
 }
 
 func (s *state) decode(kind string) (*roaring.Bitmap, string) {
@@ -255,7 +318,7 @@ func (s *state) exec(l string) string {
 	}
 	if ws[0] == "kind" && len(ws) == 2 && (ws[1] == "btree" || ws[1] == "slice") {
 		s.b = newBitmap(ws[1])
-		s.log = &bytes.Buffer{}
+		s.log = &flaky{}
 		s.b.OpWriter = s.log
 		var sb bytes.Buffer
 		if _, err := s.b.WriteTo(&sb); err != nil {
@@ -269,7 +332,28 @@ func (s *state) exec(l string) string {
 	}
 	b := s.b
 	before := s.log.Len()
+	errS := func(err error) string {
+		if err == nil {
+			return ""
+		}
+		if errors.Is(err, errFlaky) || strings.Contains(err.Error(), errFlaky.Error()) {
+			vh.Count("write-failure:" + ws[0])
+			return " err=write"
+		}
+		return " err=other"
+	}
 	switch ws[0] {
+	case "failat":
+		if len(ws) != 3 {
+			return "bad-op"
+		}
+		j, e1 := strconv.Atoi(ws[1])
+		k, e2 := strconv.Atoi(ws[2])
+		if e1 != nil || e2 != nil || j < 0 || k < 0 {
+			return "bad-op"
+		}
+		s.log.armed, s.log.at, s.log.k = true, j, k
+		return "ok"
 	case "add", "remove", "addn", "removen":
 		vals, ok := parseVals(ws[1:])
 		if !ok {
@@ -278,28 +362,16 @@ func (s *state) exec(l string) string {
 		switch ws[0] {
 		case "add":
 			ch, err := b.Add(vals...)
-			if err != nil {
-				return "err:add"
-			}
-			return "b=" + showBool(ch) + " " + s.tail(before)
+			return "b=" + showBool(ch) + errS(err) + " " + s.tail(before)
 		case "remove":
 			ch, err := b.Remove(vals...)
-			if err != nil {
-				return "err:remove"
-			}
-			return "b=" + showBool(ch) + " " + s.tail(before)
+			return "b=" + showBool(ch) + errS(err) + " " + s.tail(before)
 		case "addn":
 			n, err := b.AddN(vals...)
-			if err != nil {
-				return "err:addn"
-			}
-			return fmt.Sprintf("n=%d a=%s %s", n, vh.U64s(vals), s.tail(before))
+			return fmt.Sprintf("n=%d%s a=%s %s", n, errS(err), vh.U64s(vals), s.tail(before))
 		case "removen":
 			n, err := b.RemoveN(vals...)
-			if err != nil {
-				return "err:removen"
-			}
-			return fmt.Sprintf("n=%d a=%s %s", n, vh.U64s(vals), s.tail(before))
+			return fmt.Sprintf("n=%d%s a=%s %s", n, errS(err), vh.U64s(vals), s.tail(before))
 		}
 	case "import":
 		if len(ws) != 4 || (ws[1] != "set" && ws[1] != "clear") {
@@ -339,7 +411,7 @@ func (s *state) exec(l string) string {
 		}
 		vh.Count(fmt.Sprintf("payload:%s:runs=%v", format, runs))
 		n, _, err := b.ImportRoaringBits(data, ws[1] == "clear", true, 0)
-		if err != nil {
+		if err != nil && errS(err) != " err=write" {
 			return "err:import"
 		}
 		// the caller's buffer is also what the op log received: it must not have been touched
@@ -349,7 +421,7 @@ func (s *state) exec(l string) string {
 		if n == 0 {
 			vh.Count("import-changes-nothing")
 		}
-		return fmt.Sprintf("n=%d %s", n, s.tail(before))
+		return fmt.Sprintf("n=%d%s %s", n, errS(err), s.tail(before))
 	case "snap":
 		var sb bytes.Buffer
 		if _, err := b.WriteTo(&sb); err != nil {
